@@ -13,6 +13,7 @@ import (
 	"bytes"
 	"fmt"
 	"math/big"
+	"sync"
 	"sync/atomic"
 
 	"verif/vk"
@@ -97,13 +98,38 @@ func cutFieldMuts() []fieldMut {
 
 type specStats struct{ cases, accepted, rejected int64 }
 
+// pairClass: class of a two-field case: the fields already known to break the property alone, else both.
+func pairClass(bad *sync.Map, a, b string) string {
+	_, ba := bad.Load(a)
+	_, bb := bad.Load(b)
+	switch {
+	case ba && !bb:
+		return "field=" + a
+	case bb && !ba:
+		return "field=" + b
+	}
+	return "field=" + a + "+" + b
+}
+
+// runJobs runs the first list to completion, then the second.
+func runJobs(r *vk.Run, first, second []func()) {
+	for _, l := range [][]func(){first, second} {
+		l := l
+		vk.ParallelFor(len(l), func(i int) {
+			if !r.Expired() {
+				l[i]()
+			}
+		})
+	}
+}
+
 // evalCUT checks one candidate (already mutated carrier) in the three cache states.
-func evalCUT(r *vk.Run, name, class string, carrierTx *types.ContractUpgradeTx, accept, o2 bool, st *specStats) {
+func evalCUT(r *vk.Run, name, class string, carrierTx *types.ContractUpgradeTx, accept, o2 bool, st *specStats) (violated bool) {
 	wire, err := ser.EncodeToBytes(carrierTx)
 	if err != nil {
 		atomic.AddInt64(&st.cases, nCache)
 		atomic.AddInt64(&st.rejected, nCache)
-		return
+		return false
 	}
 	for cs := 0; cs < nCache; cs++ {
 		tx, err := decodeCUT(wire)
@@ -143,6 +169,7 @@ func evalCUT(r *vk.Run, name, class string, carrierTx *types.ContractUpgradeTx, 
 		case accept && verr != nil:
 			r.Violation("genuine-transaction-refused:ContractUpgradeTx:"+class, fmt.Sprintf("ContractUpgradeTx %s refused by %s: %v", name, where, verr), replay{"case": name, "wire": hexb(wire), "cache_state": cacheName[cs]})
 		case !accept && verr == nil:
+			violated = true
 			key := "unauthorised-accepted:ContractUpgradeTx:" + class
 			if o2 {
 				key = keyO2
@@ -151,6 +178,7 @@ func evalCUT(r *vk.Run, name, class string, carrierTx *types.ContractUpgradeTx, 
 				replay{"case": name, "wire": hexb(wire), "base_wire": hexb(cutWire), "cache_state": cacheName[cs]})
 		}
 	}
+	return
 }
 
 func runCUT(r *vk.Run) int {
@@ -172,16 +200,16 @@ func runCUT(r *vk.Run) int {
 
 	var st specStats
 	muts := cutFieldMuts()
-	type job func()
-	var jobs []job
+	var jobs, pairs []func()
+	var bad sync.Map
 	// A: field mutations, single and pairwise, signatures untouched; plus identity
 	jobs = append(jobs, func() { evalCUT(r, "untouched", "identity", fresh(), true, false, &st) })
 	for i := range muts {
 		i := i
 		jobs = append(jobs, func() {
 			t := fresh()
-			if safeApply(muts[i], t) {
-				evalCUT(r, muts[i].field+"/"+muts[i].label, "field="+muts[i].field, t, false, false, &st)
+			if safeApply(muts[i], t) && evalCUT(r, muts[i].field+"/"+muts[i].label, "field="+muts[i].field, t, false, false, &st) {
+				bad.Store(muts[i].field, true)
 			}
 		})
 		for j := i + 1; j < len(muts); j++ {
@@ -189,10 +217,10 @@ func runCUT(r *vk.Run) int {
 			if muts[i].field == muts[j].field {
 				continue
 			}
-			jobs = append(jobs, func() {
+			pairs = append(pairs, func() {
 				t := fresh()
 				if safeApply(muts[i], t) && safeApply(muts[j], t) {
-					evalCUT(r, muts[i].field+"/"+muts[i].label+" & "+muts[j].field+"/"+muts[j].label, "field="+muts[i].field+"+"+muts[j].field, t, false, false, &st)
+					evalCUT(r, muts[i].field+"/"+muts[i].label+" & "+muts[j].field+"/"+muts[j].label, pairClass(&bad, muts[i].field, muts[j].field), t, false, false, &st)
 				}
 			})
 		}
@@ -227,13 +255,16 @@ func runCUT(r *vk.Run) int {
 								if !safeApply(muts[fm], t) {
 									continue
 								}
-								name, class = muts[fm].field+"/"+muts[fm].label+" & ", "field="+muts[fm].field+":"
+								name, class = muts[fm].field+"/"+muts[fm].label+" & ", "field="+muts[fm].field
 							}
 							e := t.Signatures[which]
 							e.R, e.S, e.V = a.v, b.v, c.v
 							sn := k.sigName(sigAlt{a, b, c})
 							ident := fm < 0 && sn == ""
-							evalCUT(r, fmt.Sprintf("%ssignature[%d]{%s}", name, which, sn), class+"sig["+sn+"]", t, ident, false, &st)
+							if class == "" {
+								class = "sig[" + sn + "]"
+							}
+							evalCUT(r, fmt.Sprintf("%ssignature[%d]{%s}", name, which, sn), class, t, ident, false, &st)
 						}
 					}
 				}
@@ -266,7 +297,7 @@ func runCUT(r *vk.Run) int {
 					if !safeApply(muts[fm], t) {
 						return
 					}
-					name, class, acc = muts[fm].field+"/"+muts[fm].label+" & "+name, "field="+muts[fm].field+":"+class, false
+					name, class, acc = muts[fm].field+"/"+muts[fm].label+" & "+name, "field="+muts[fm].field, false
 				}
 				op.f(t)
 				evalCUT(r, name, class, t, acc, false, &st)
@@ -305,11 +336,7 @@ func runCUT(r *vk.Run) int {
 		t.Sign(types.GlobalSTDSigner, k)
 		evalCUT(r, "A and an unregistered key sign", "unregistered-signer", t, false, false, &st)
 	})
-	vk.ParallelFor(len(jobs), func(i int) {
-		if !r.Expired() {
-			jobs[i]()
-		}
-	})
+	runJobs(r, jobs, pairs)
 	if r.Expired() {
 		r.Capped("ContractUpgradeTx enumeration hit the deadline")
 	}
@@ -351,12 +378,12 @@ func mstSign(main types.MultiSignMainInfo, i int) types.ValidatorSign {
 	return types.ValidatorSign{Addr: []byte(valKeys[i].PubKey().Address()), Signature: sig.Bytes()}
 }
 
-func evalMST(r *vk.Run, name, class string, c *types.MultiSignAccountTx, accept bool, st *specStats) {
+func evalMST(r *vk.Run, name, class string, c *types.MultiSignAccountTx, accept bool, st *specStats) (violated bool) {
 	wire, err := ser.EncodeToBytes(c)
 	if err != nil {
 		atomic.AddInt64(&st.cases, nCache)
 		atomic.AddInt64(&st.rejected, nCache)
-		return
+		return false
 	}
 	vs := types.NewValidatorSet(valSet)
 	for cs := 0; cs < nCache; cs++ {
@@ -394,10 +421,12 @@ func evalMST(r *vk.Run, name, class string, c *types.MultiSignAccountTx, accept 
 		case accept && verr != nil:
 			r.Violation("genuine-transaction-refused:MultiSignAccountTx:"+class, fmt.Sprintf("MultiSignAccountTx %s refused by %s: %v", name, where, verr), replay{"case": name, "wire": hexb(wire), "cache_state": cacheName[cs]})
 		case !accept && verr == nil:
+			violated = true
 			r.Violation("unauthorised-accepted:MultiSignAccountTx:"+class, fmt.Sprintf("MultiSignAccountTx %s is authorised by %s although fewer than a quorum of validators signed exactly this content", name, where),
 				replay{"case": name, "wire": hexb(wire), "base_wire": hexb(mstWire), "cache_state": cacheName[cs]})
 		}
 	}
+	return
 }
 
 func runMST(r *vk.Run) int {
@@ -450,14 +479,15 @@ func runMST(r *vk.Run) int {
 		mutAddr("Signers[1].Addr", func(c carrier) *common.Address { return &g(c).Signers[1].Addr }, addrY),
 	)
 	var st specStats
-	var jobs []func()
+	var jobs, pairs []func()
+	var bad sync.Map
 	jobs = append(jobs, func() { evalMST(r, "untouched", "identity", fresh(), true, &st) })
 	for i := range muts {
 		i := i
 		jobs = append(jobs, func() {
 			t := fresh()
-			if safeApply(muts[i], t) {
-				evalMST(r, muts[i].field+"/"+muts[i].label, "field="+muts[i].field, t, false, &st)
+			if safeApply(muts[i], t) && evalMST(r, muts[i].field+"/"+muts[i].label, "field="+muts[i].field, t, false, &st) {
+				bad.Store(muts[i].field, true)
 			}
 		})
 		for j := i + 1; j < len(muts); j++ {
@@ -465,10 +495,10 @@ func runMST(r *vk.Run) int {
 			if muts[i].field == muts[j].field {
 				continue
 			}
-			jobs = append(jobs, func() {
+			pairs = append(pairs, func() {
 				t := fresh()
 				if safeApply(muts[i], t) && safeApply(muts[j], t) {
-					evalMST(r, muts[i].field+"/"+muts[i].label+" & "+muts[j].field+"/"+muts[j].label, "field="+muts[i].field+"+"+muts[j].field, t, false, &st)
+					evalMST(r, muts[i].field+"/"+muts[i].label+" & "+muts[j].field+"/"+muts[j].label, pairClass(&bad, muts[i].field, muts[j].field), t, false, &st)
 				}
 			})
 		}
@@ -562,11 +592,7 @@ func runMST(r *vk.Run) int {
 		t.Signatures = nil
 		evalMST(r, "no signatures", "siglist=below-quorum", t, false, &st)
 	})
-	vk.ParallelFor(len(jobs), func(i int) {
-		if !r.Expired() {
-			jobs[i]()
-		}
-	})
+	runJobs(r, jobs, pairs)
 	fmt.Printf("special MultiSignAccountTx cases=%d accepted=%d rejected=%d\n", st.cases, st.accepted, st.rejected)
 	r.Set("multi_sign_account_tx", map[string]int64{"cases": st.cases, "authorised": st.accepted, "refused": st.rejected, "field_mutations": int64(len(muts))})
 	if st.accepted == 0 || st.rejected == 0 {
